@@ -569,6 +569,13 @@ func generate(repo, out string) error {
 	if err := writeIfChanged(filepath.Join(out, "LuaScripts.lean"), ls); err != nil {
 		return err
 	}
+	ar, err := genArith(repo)
+	if err != nil {
+		return err
+	}
+	if err := writeIfChanged(filepath.Join(out, "Arith.lean"), ar); err != nil {
+		return err
+	}
 	_ = os.Stdout
 	return nil
 }
